@@ -1361,8 +1361,10 @@ class BaseGaussianState(BaseState):
                 cutoff=cutoff,
                 check_purity=False,
             )
-            rho = np.outer(psi, psi.conj())
-            return rho
+            # same index convention as for mixed states: [i_1, j_1, i_2, j_2, ...]
+            k = len(modes)
+            rho = np.multiply.outer(psi, psi.conj())
+            return rho.transpose([i + k * j for i in range(k) for j in (0, 1)])
 
         return twq.density_matrix(mu, cov, hbar=self._hbar, normalize=True, cutoff=cutoff)
 
